@@ -44,6 +44,31 @@ OWNERS = {
 }
 
 
+# function node id -> name of the parameter that plays the `arg` role when it is not the first one (a setter body spliced into
+# the constructor: arg = the constructor's `predecessors` parameter).  Set through `arg_role(f, name)`.
+_ARG_OVERRIDE: Dict[int, str] = {}
+
+
+class arg_role:
+    """with arg_role(f, 'predecessors'): ...   - inside the block every Roles(f) uses that parameter as `arg`"""
+
+    def __init__(self, f: Func, name: Optional[str]):
+        self.key, self.name = id(f.node), name
+
+    def __enter__(self):
+        self.prev = _ARG_OVERRIDE.get(self.key)
+        if self.name is not None:
+            _ARG_OVERRIDE[self.key] = self.name
+        return self
+
+    def __exit__(self, *a):
+        if self.prev is None:
+            _ARG_OVERRIDE.pop(self.key, None)
+        else:
+            _ARG_OVERRIDE[self.key] = self.prev
+        return False
+
+
 class Roles:
     def __init__(self, prog, f: Func, typer):
         self.f = f
@@ -52,6 +77,8 @@ class Roles:
         ps = [p for p in f.params if p != f.self_name]
         if ps:
             self.arg = ps[0]
+        if id(f.node) in _ARG_OVERRIDE:
+            self.arg = _ARG_OVERRIDE[id(f.node)]
         self.names: Dict[str, str] = {}
         if self.self_name:
             self.names[self.self_name] = 'self'
@@ -559,6 +586,11 @@ def require(ctx, o, f: Func, label: str, R, writes, eff, needs_elem: bool, mode_
     """obligation step: requirement R must be rejected with RuntimeError before any relation write of f"""
     cfg = cfg_of(f)
     gfs = guard_formulas(ctx, f)
+    if needs_elem:
+        # a requirement about an element of the argument presupposes that the argument has one: `if arg:` / `if len(arg) > 0:`
+        # around the guards is no restriction
+        for g in gfs:
+            g.formula = _assume_true(g.formula, {'opaque:arg', 'opaque:len(arg) > 0', 'opaque:len(arg)'})
     early, late = [], []
     for g in gfs:
         np_ = writes_not_preceded(cfg, f, _as_gf(g), writes)
@@ -588,7 +620,9 @@ def require(ctx, o, f: Func, label: str, R, writes, eff, needs_elem: bool, mode_
         if not_elem and implication(R, [g.formula for g in usable + not_elem]) is None:
             o.refute(f, not_elem[0].node, label, f"[{label}] is not evaluated for every element of the argument")
             return False
-    opaque = sorted({a for g in early + late for a in g.opaque()})
+    # the truth value of another parameter (`if successors:` around a neighbouring block of the constructor) hides no check
+    params = {'opaque:' + p_ for p_ in f.params}
+    opaque = sorted({a for g in early + late for a in g.opaque() if a not in params})
     # membership in a container the vocabulary does not know (and the requirement does not mention) is uninterpreted, too
     opaque += sorted({'opaque:' + a for g in early + late for a in atoms_of(g.formula)
                       if a.startswith('in(') and a not in atoms_of(R) and 'opaque:' + a not in opaque
@@ -604,7 +638,16 @@ def require(ctx, o, f: Func, label: str, R, writes, eff, needs_elem: bool, mode_
     inverted = [g for g in early + late if keys & atoms_of(g.formula) and implication(g.formula, [R]) is not None
                 and implication(('and', [g.formula, R]), []) is not None and False]
     helper_calls = unfolded_raising_helpers(ctx, f, eff)
-    foreign = [g for g in early + late if g.foreign_binder and g.exc == 'RuntimeError']
+    def other_param(it):
+        """the iterable is (the list form of) ANOTHER parameter: such guards are about that argument, not about this one"""
+        for _ in range(6):
+            m = match("_to_list($x)", it) or match("_unique_tasks($x)", it) or match("list($x)", it) or match("[$y for $y in $x]", it)
+            if not m:
+                break
+            it = m['x']
+        return isinstance(it, ast.Name) and it.id in f.params and it.id != Roles(ctx.prog, f, ctx.typer).arg
+    foreign = [g for g in early + late if g.foreign_binder and g.exc == 'RuntimeError'
+               and not all(other_param(it) or Roles(ctx.prog, f, ctx.typer).is_arg_list(it) for tgt, it in g.g.binders)]
     if foreign and not opaque and not helper_calls:
         its = ', '.join(sorted({src(it)[:50] for g in foreign for tgt, it in g.g.binders}))
         o.undecided(f, f.node, label, f"[{label}] not established: guards sit in a loop over `{its}`, which the rule cannot relate to the argument")
@@ -617,6 +660,17 @@ def require(ctx, o, f: Func, label: str, R, writes, eff, needs_elem: bool, mode_
     env_txt = ', '.join(f"{k}={v}" for k, v in sorted(cex.items()) if k in keys)
     o.refute(f, f.node, label, f"[{label}] is missing: with {env_txt} no RuntimeError is raised before relation state is written")
     return False
+
+
+def _assume_true(f, names):
+    k = f[0]
+    if k == 'atom':
+        return ('const', True) if f[1] in names else f
+    if k == 'not':
+        return ('not', _assume_true(f[1], names))
+    if k in ('and', 'or'):
+        return (k, [_assume_true(x, names) for x in f[1]])
+    return f
 
 
 def _as_gf(g: GF):
